@@ -280,6 +280,34 @@ def j5(led, rid, ctx):
               "find_last_decision looks at %d trail entr%s of the decision level, but an equality decision "
               "[x = v] is written as %d bound updates: the no-learning resolver flips [x ≥ v] instead of "
               "[x = v] and never visits x > v" % (arity_r, "y" if arity_r == 1 else "ies", arity_w))
+    # ORDER: the reader matches the two entries in the order the writer produces them
+    if arity_w >= 2:
+        order_w = [c.name.replace("tighten_", "").replace("_bound", "") for c in
+                   sorted(writes, key=lambda c: sum(1 for d in writes if w.cfg.dominates(d.bb, c.bb)))]
+        from ..symexec import SymExec as _SE, variant_name as _vn
+        order_r = None
+        for p_ in _SE(r, max_paths=200).run():
+            if p_.diverged or p_.ret is None:
+                continue
+            rr = peel(p_.ret, calls=None)
+            builds_eq = any(x.k == "call" and x.a.name == "equality_predicate" for x in p_.ret.walk()) or \
+                any(x.k == "agg" and x.b == "Equal" for x in p_.ret.walk())
+            if not builds_eq:
+                continue
+            seq = []
+            for cond, val, others in p_.conds:
+                if cond.k == "discr" and (cond.b or "").endswith("Predicate"):
+                    which = "second" if any(c.name == "get" for c in cond.calls()) or "Some" in show(cond) else "first"
+                    seq.append((which, _vn(r, cond, val, others)))
+            d = dict(seq)
+            if "first" in d and "second" in d:
+                order_r = [d["first"], d["second"]]
+        want = [{"lower": "LowerBound", "upper": "UpperBound"}[x] for x in order_w[:2]]
+        led.check(order_r == want, rid, "reader-matches-writer-order", r.span,
+                  "entries read as %s, written as %s" % (order_r, want),
+                  "find_last_decision recognises an equality decision when the two trail entries are %s, but "
+                  "make_assignment writes %s: the pattern never matches, the no-learning resolver flips only "
+                  "the first half of the decision and never visits the values above it" % (order_r, want))
     if arity_r >= 2:
         eq = aggregates(r, "predicate::Predicate", "Equal")
         calls_eq = [c for c in r.calls if c.name == "equality_predicate"]
